@@ -192,6 +192,9 @@ def build_calls(d, dtype):
         pass
     X = np.array(d["X"], dtype=float)
     calls["bistochastic.birkhoff_von_neumann"] = (bi.birkhoff_von_neumann, [X])
+    # the same matrix as an ndarray SUBCLASS (a valuation profile view) and as a Fortran-ordered array
+    calls["bistochastic.birkhoff_von_neumann[subclass]"] = (bi.birkhoff_von_neumann, [pu.ValuationProfile.of(np.array(X))])
+    calls["bistochastic.birkhoff_von_neumann[fortran]"] = (bi.birkhoff_von_neumann, [np.asfortranarray(np.array(X))])
     calls["bistochastic.positivity_graph"] = (bi.positivity_graph, [X])
     G = {int(k): [tuple(e) for e in v] for k, v in d["net"].items()}
     calls["flow.ford_fulkerson"] = (fl.ford_fulkerson, [G, d["s"], d["t"]])
